@@ -35,7 +35,7 @@ REG = {
         "assumptions": ["reference frame codec in harness/ref/frame.go is a correct reading of JT/T 808 framing"],
         "required_buckets": {"any": ["2013", "2019", "fragmented", "len>=1000", "chk_7e", "chk_7d", "2019:fragmented:len>=1000"]},
         "parts": [
-            rapid("pure", "TestC01", 4000, 100000),
+            rapid("pure", "TestC01", 30000, 300000),
             enum("pure", "TestC01Sweep", 4, 8),
         ],
     },
@@ -48,7 +48,7 @@ REG = {
         "assumptions": ["reference validator harness/ref/frame.go"],
         "required_buckets": {"any": ["accept", "reject_escape", "reject_checksum", "reject_header", "reject_length", "valid_chk7d", "enum", "enum_chk7d"]},
         "parts": [
-            rapid("pure", "TestC02", 5000, 150000),
+            rapid("pure", "TestC02", 30000, 300000),
             enum("pure", "TestC02Enum", 16, 16),
             fuzz("pure", "FuzzC02", 90),
         ],
@@ -62,8 +62,8 @@ REG = {
         "assumptions": ["comparison ignores derived fields (AlarmSignDetails/StatusSignDetails) and func fields; nil and empty lists are identified"],
         "required_buckets": {"any": ["P0x9212:list>=3", "P0x8800:list0", "P0x8103", "T0x1210:dialect2", "P0x9208:dialect5", "T0x0100", "T0x0704:list>=3", "util_gbk", "util_time"]},
         "parts": [
-            rapid("pure", "TestC07", 6000, 150000),
-            rapid("pure", "TestC07Utils", 3000, 50000, qs=2, ts=4),
+            rapid("pure", "TestC07", 30000, 400000),
+            rapid("pure", "TestC07Utils", 10000, 100000, qs=2, ts=4),
         ],
     },
     "C16": {
@@ -75,9 +75,9 @@ REG = {
         "assumptions": ["reference complement harness/ref/intervals.go"],
         "required_buckets": {"any": ["gaps_0", "gaps_2-3", "gap_at_start", "gap_at_end", "single_byte_gap", "size_near_2^32", "gaps_at_1212", "gaps>=2", "resent_chunk"]},
         "parts": [
-            rapid("pure", "TestC16", 5000, 150000),
+            rapid("pure", "TestC16", 30000, 300000),
             enum("pure", "TestC16Enum", 1, 1),
-            rapid("ext", "TestC16Driven", 400, 8000),
+            rapid("ext", "TestC16Driven", 1500, 15000),
         ],
     },
     "C17": {
@@ -89,7 +89,8 @@ REG = {
         "assumptions": ["reference builder harness/ref/rtp.go"],
         "required_buckets": {"any": ["dt0", "dt3", "dt4", "dt9", "cut_in_header", "cut_in_payload", "junk_unqualified", "multi", "trailing_bytes"]},
         "parts": [
-            rapid("pure", "TestC17", 4000, 120000),
+            rapid("pure", "TestC17", 20000, 200000),
+            rapid("pure", "TestC17Walk", 3000, 80000, qs=4, ts=8),
             enum("pure", "TestC17Enum", 1, 1),
             fuzz("pure", "FuzzC17", 60),
         ],
@@ -103,7 +104,7 @@ REG = {
         "assumptions": ["Go slice bounds checks (capacity) make any access beyond an exact-capacity slice panic"],
         "required_buckets": {"any": ["reused_receiver", "origin_mutated", "origin_valid", "origin_raw", "T0x0704:accepted", "T0x1210:accepted", "ext67:accepted", "T0x0200+ext:accepted", "P0x9208:dialect3", "jt1078.Decode:accepted", "jt808.Decode:accepted", "T0x0104:accepted"]},
         "parts": [
-            rapid("pure", "TestC03", 8000, 250000),
+            rapid("pure", "TestC03", 40000, 500000),
             fuzz("pure", "FuzzC03", 120),
         ],
     },
@@ -116,7 +117,7 @@ REG = {
         "assumptions": ["bit and length tables in harness/ref/location.go transcribe JT/T 808-2019 tables 24, 25, 27, 31, 32"],
         "required_buckets": {"any": ["carrier_0200", "carrier_0704", "carrier_0801", "item_11_ok", "item_11_badlen", "item_31_badlen", "item_05_ok", "item_25_ok", "item_2a_ok", "item_unknown", "duplicate_item", "tlv_truncated"]},
         "parts": [
-            rapid("pure", "TestC08", 5000, 120000),
+            rapid("pure", "TestC08", 30000, 300000),
             enum("pure", "TestC08Enum", 1, 1),
         ],
     },
@@ -129,9 +130,9 @@ REG = {
         "assumptions": ["reference frame builder harness/ref/frame.go"],
         "required_buckets": {"any": ["cut_inside_frame", "cut_in_escape_pair", "cut_before_delimiter", "fast_path_read", "frame_longer_than_1023", "reused_buffer", "single_read"]},
         "parts": [
-            rapid("ext", "TestC04", 1500, 30000),
+            rapid("ext", "TestC04", 6000, 60000),
             enum("ext", "TestC04Enum", 8, 16),
-            rapid("sys", "TestC04Socket", 12, 300, qs=8, ts=16),
+            rapid("sys", "TestC04Socket", 30, 400, qs=8, ts=16),
         ],
     },
     "C05": {
@@ -143,7 +144,7 @@ REG = {
         "assumptions": ["reference model in ext/c05_test.go (reasm) written from the property statement"],
         "required_buckets": {"any": ["duplicates", "impossible_packet", "out_of_order", "two_transfers", "reused_buffer", "cuts_per_frame", "cuts_all_in_one", "cuts_random", "N_>=3"]},
         "parts": [
-            rapid("ext", "TestC05", 1500, 30000),
+            rapid("ext", "TestC05", 10000, 100000),
             enum("ext", "TestC05Enum", 1, 1),
         ],
     },
@@ -156,8 +157,8 @@ REG = {
         "assumptions": [],
         "required_buckets": {"any": ["plain", "fragmented", "cleanup", "handoff", "hold_2000us", "sub_packaged"]},
         "parts": [
-            rapid("ext", "TestC09Extractor", 1500, 30000),
-            rapid("sys", "TestC09Socket", 20, 400, qs=12, ts=16),
+            rapid("ext", "TestC09Extractor", 8000, 80000),
+            rapid("sys", "TestC09Socket", 60, 800, qs=12, ts=16),
         ],
     },
     "C14": {
@@ -169,7 +170,7 @@ REG = {
         "assumptions": ["virtual clock hook is a faithful stand-in for wall-clock time (validated by the real-clock scenario in the thorough tier of the socket engine)"],
         "required_buckets": {"any": ["advance_crosses_5s", "advance_crosses_60s", "missing>=2", "rounds>=2", "two_transfers", "N>=10", "transfer_restarted"]},
         "parts": [
-            rapid("ext", "TestC14", 1500, 30000),
+            rapid("ext", "TestC14", 10000, 100000),
             enum("ext", "TestC14Enum", 4, 16),
             enum("sys", "TestC14RealClock", 1, 1, tiers=["thorough"], timeout={"thorough": 900}),
         ],
@@ -183,7 +184,7 @@ REG = {
         "assumptions": ["reference builders harness/ref/upload.go"],
         "required_buckets": {"any": ["dialect1", "dialect2", "dialect3", "dialect4", "dialect5", "marker_in_metadata", "resent_chunk", "chunks_out_of_order", "files>=2", "cuts_control_plus_next", "cuts_coalesce_all", "cuts_random", "cuts_per_item"]},
         "parts": [
-            rapid("ext", "TestC15", 400, 8000),
+            rapid("ext", "TestC15", 1500, 15000),
         ],
     },
     "C19": {
@@ -195,7 +196,7 @@ REG = {
         "assumptions": [],
         "required_buckets": {"any": ["name_with_separator_or_dotdot", "files_stored", "end_eof", "end_garbage_frame", "end_unknown_command", "end_bad_checksum"]},
         "parts": [
-            rapid("ext", "TestC19", 150, 4000),
+            rapid("ext", "TestC19", 600, 8000),
         ],
     },
     "C10": {
@@ -207,9 +208,9 @@ REG = {
         "assumptions": [],
         "required_buckets": {"any": ["connect_and_close", "closed_mid_stream", "hostile_chunk_header", "hostile_control_frame", "default_file_handler", "custom_file_handler", "hostile_package_numbers", "frames_accepted", "connection_closed_on_error", "unsupported_id", "attack_connect_and_close", "attack_hostile_package_numbers", "attack_half_frame", "close_rst", "attack_frames_accepted", "handlers_parse_all"]},
         "parts": [
-            rapid("ext", "TestC10Attach", 300, 6000),
-            rapid("ext", "TestC10Extractor", 1500, 40000),
-            rapid("sys", "TestC10Socket", 15, 400, qs=12, ts=16),
+            rapid("ext", "TestC10Attach", 1500, 15000),
+            rapid("ext", "TestC10Extractor", 8000, 100000),
+            rapid("sys", "TestC10Socket", 40, 600, qs=12, ts=16),
             fuzz("ext", "FuzzC10Extractor", 120),
         ],
     },
@@ -222,7 +223,7 @@ REG = {
         "assumptions": ["loopback TCP; child process per scenario; reference frame codec"],
         "required_buckets": {"any": ["msg_0100", "msg_0102", "msg_0801", "msg_1212", "msg_1003", "auth_bad", "auth_ok", "kind_noreply", "kind_unsupported", "sub_packaged", "hdr2019", "handlers_parse_all", "terminals_3", "wrap_reached"]},
         "parts": [
-            rapid("sys", "TestC06", 25, 500, qs=12, ts=16),
+            rapid("sys", "TestC06", 80, 1000, qs=12, ts=16),
             enum("sys", "TestC06Wrap", 1, 1, timeout={"quick": 300, "thorough": 900}),
         ],
     },
@@ -235,7 +236,7 @@ REG = {
         "assumptions": ["loopback TCP; child process per scenario"],
         "required_buckets": {"any": ["behaviour_answer", "behaviour_hold", "behaviour_dup", "behaviour_wrong_serial", "behaviour_ignore", "behaviour_late", "concurrent_calls_one_terminal", "responses_out_of_order", "serial_wrap"]},
         "parts": [
-            rapid("sys", "TestC12", 10, 300, qs=12, ts=16),
+            rapid("sys", "TestC12", 25, 400, qs=12, ts=16),
             enum("sys", "TestC12Wrap", 1, 1, timeout={"quick": 300, "thorough": 900}),
         ],
     },
@@ -248,7 +249,7 @@ REG = {
         "assumptions": ["loopback TCP; child process per scenario"],
         "required_buckets": {"any": ["fault_before_join", "fault_close_with_queued", "fault_close_on_command", "fault_slow_write_callback", "fault_close_at_timeout", "fault_duplicate_key", "fault_manager_lag", "close_rst", "q_6", "key_reused_after_fault"]},
         "parts": [
-            rapid("sys", "TestC13", 25, 600, qs=12, ts=16),
+            rapid("sys", "TestC13", 50, 800, qs=12, ts=16),
         ],
     },
     "C18": {
@@ -260,7 +261,7 @@ REG = {
         "assumptions": ["Go race detector (happens-before, executed schedules only)"],
         "required_buckets": {"any": ["scenario_c06", "scenario_c12", "scenario_c13"]},
         "parts": [
-            rapid("sys", "TestC18", 12, 300, qs=12, ts=16, race=True),
+            rapid("sys", "TestC18", 30, 500, qs=12, ts=16, race=True),
         ],
     },
     "C11": {
@@ -272,7 +273,7 @@ REG = {
         "assumptions": ["loopback TCP; child process per scenario"],
         "required_buckets": {"any": ["refused_duplicate", "rejoin_after_leave", "concurrent_group"]},
         "parts": [
-            rapid("sys", "TestC11", 15, 400, qs=12, ts=16),
+            rapid("sys", "TestC11", 40, 600, qs=12, ts=16),
         ],
     },
     "C20": {
@@ -284,8 +285,8 @@ REG = {
         "assumptions": ["reference frame codec"],
         "required_buckets": {"any": ["version_1", "version_2", "version_3", "template_checksum_escaped", "phone_padded", "custom_body", "cmd_0100", "cmd_0102", "cmd_1212", "pipelined"]},
         "parts": [
-            rapid("pure", "TestC20", 1500, 40000),
-            rapid("sys", "TestC20Live", 15, 300, qs=8, ts=16),
+            rapid("pure", "TestC20", 8000, 80000),
+            rapid("sys", "TestC20Live", 40, 500, qs=8, ts=16),
             enum("pure", "TestC20Wrap", 3, 3, tiers=["thorough"]),
         ],
     },
